@@ -26,6 +26,8 @@ def run(repo, res, tier):
     res.assumptions = ["generator protocol of next/send/throw (frozen table, DESIGN 2.5)",
                        "library may-raise table (DESIGN 2.4)"]
     t1 = parserules.add_rule(res, an, "T1")
+    common.triage_aggregation_cls(repo, res, t1)
+    t1 = [f for f in t1 if f in res.findings]
     t2 = parserules.add_rule(res, an, "T2")
     t5 = parserules.add_rule(res, an, "T5")
     t8 = parserules.add_rule(res, an, "T8")
